@@ -147,6 +147,48 @@ def gen_c09(rng, n, caps=None):
     return out
 
 
+def gen_forget_slowflush(rng, n):
+    """Forgotten join handle, periodic flush that takes longer than the flush interval: the last
+    appends and the drop of the last queue handle land while the writer is inside stream.flush(),
+    i.e. between its last empty pop and its 'no appenders left' check."""
+    out = []
+    for i in range(n):
+        nprod = rng.choice([1, 1, 2])
+        prods = [{"n": rng.randint(3, 12), "pace_us": rng.choice([300, 700, 1500])} for _ in range(nprod)]
+        out.append({"cap": 64, "boxed": rng.random() < 0.5, "flush_us": rng.choice([500, 1000]),
+                    "flush_slow_us": rng.choice([2000, 5000, 20000]), "producers": prods, "results": {},
+                    "flushers": [], "end": "forget", "permille": 0, "kind": "forget-slowflush"})
+    return out
+
+
+def gen_flush_faults(rng, n):
+    """Stream whose flush keeps failing while the handle is dropped / forgotten."""
+    out = []
+    for i in range(n):
+        prods = [{"n": rng.randint(1, 10), "pace_us": rng.choice([0, 100])} for _ in range(rng.choice([1, 2]))]
+        out.append({"cap": 32, "boxed": rng.random() < 0.5, "flush_us": rng.choice([500, 2000]), "producers": prods,
+                    "results": _results(rng, prods, 0.1, 0.2), "flushers": [], "flush_err": True,
+                    "end": rng.choice(["drop", "forget"]), "permille": 0, "kind": "flush-faults"})
+    return out
+
+
+def gen_race_rounds(rng, n, rounds):
+    return [{"cap": rng.choice([1, 2, 3, 4]), "boxed": rng.random() < 0.5, "flush_us": rng.choice([1000, 59_000_000]),
+             "producers": [], "results": {}, "flushers": [], "end": "drop", "recorder": True,
+             "race_rounds": rounds, "kind": "race-rounds"} for _ in range(n)]
+
+
+def gen_count_only(rng, n, per):
+    out = []
+    for i in range(n):
+        nprod = rng.choice([2, 3, 4, 6])
+        out.append({"cap": rng.choice([1, 4, 8, 32]), "boxed": rng.random() < 0.5, "flush_us": 1000,
+                    "producers": [{"n": per // nprod, "pace_us": 0} for _ in range(nprod)], "results": {},
+                    "flushers": [], "slow_us": rng.choice([0, 5, 20]), "end": "drop", "recorder": True,
+                    "count_only": True, "stall": rng.choice([None, {"k": 1}]), "kind": "count-only"})
+    return out
+
+
 GEN = {"C01": gen_c01, "C04": gen_c04, "C05": gen_c05, "C09": gen_c09}
 NSCEN = {"quick": {"C01": 40, "C04": 40, "C05": 40, "C09": 36}, "thorough": {"C01": 1500, "C04": 1200, "C05": 800, "C09": 600}}
 
@@ -165,6 +207,11 @@ def tame(sc):
 def run_recorded(chk, prop, scen, tag="rec", chunk=150):
     """Run scenarios in the real code and validate their traces against QueueTrace.tla."""
     scen = [tame(s) for s in scen]
+    counting = [s for s in scen if s.get("count_only")]
+    if counting and tag == "rec":
+        run_recorded(chk, prop, counting, tag="cnt", chunk=chunk)
+        scen = [s for s in scen if not s.get("count_only")]
+    tspec = "QueueCountTrace" if tag == "cnt" else "QueueTrace"
     total_events = 0
     for c0 in range(0, len(scen), chunk):
         part = scen[c0:c0 + chunk]
@@ -175,7 +222,7 @@ def run_recorded(chk, prop, scen, tag="rec", chunk=150):
         vlib.run_bin("bq", ["run", "--scenarios", sp, "--out", tp, "--meta", mp], timeout=3600)
 
         def on_reject(meta, v, lines):
-            what = (f"recorded execution of scenario {meta['id']} is not a behaviour of QueueAbs: "
+            what = (f"recorded execution of scenario {meta['id']} is not a behaviour of {'QueueAbs' if tspec == 'QueueTrace' else tspec}: "
                     + (f"invariant {v.invariant} violated" if v.invariant else f"event {json.dumps(v.event)} (line {v.rel_line} of the scenario trace) is not enabled")
                     + f"; abstract state before it: {v.state}")
             ev = v.event if isinstance(v.event, dict) else {}
@@ -183,7 +230,8 @@ def run_recorded(chk, prop, scen, tag="rec", chunk=150):
             chk.violation(what, {"kind": "recorded", "scenario": meta["scenario"], "rejected_line": v.rel_line,
                                  "event": v.event, "trace": [json.loads(l) for l in lines]}, key=key)
 
-        acc = vlib.validate_scenarios(SPECD, "QueueTrace", "QueueTrace.cfg", tp, mp, on_reject, stats=chk.extra)
+        acc = vlib.validate_scenarios(SPECD, tspec, tspec + ".cfg", tp, mp, on_reject, stats=chk.extra,
+                                      chunk=(2 if tspec == "QueueCountTrace" else 20))
         chk.traces += acc
         metas = vlib.read_ndjson(mp)
         total_events += sum(m["events"] for m in metas)
@@ -192,7 +240,7 @@ def run_recorded(chk, prop, scen, tag="rec", chunk=150):
             chk.evaluations += 1
             chk.nontrivial.add(json.dumps([s.get("cap"), len(s.get("producers", [])), s.get("end"), s.get("boxed"),
                                            s.get("flush_us"), bool(s.get("stall")), len(s.get("flushers", [])),
-                                           s.get("permille"), m["events"]]))
+                                           s.get("permille"), s.get("race_rounds"), s.get("count_only"), m["events"]]))
         if c0 == 0:
             with open(tp) as f:
                 head = [json.loads(next(f)) for _ in range(min(12, metas[0]["events"]))]
@@ -301,6 +349,17 @@ def run_wakertracker(chk, tier):
     if rr.errors:
         raise vlib.ToolError(f"WakerTrackerReplay failed: {rr.errors[:2]}")
     beh = vlib.replay_lines(rr)
+    # deep random behaviours with many requests (late joiners, countdown resets): -simulate
+    rs = vlib.tlc(SPECD, "WakerTrackerReplay", "MC_wt_replay_deep.cfg", workers=1, simulate=(400 if tier == "quick" else 6000),
+                  depth=26, seed=chk.seed, timeout=900)
+    deep = vlib.replay_lines(rs)
+    seen = set()
+    for b in deep:
+        k = json.dumps(b["steps"])
+        if k not in seen:
+            seen.add(k)
+            beh.append(b)
+    chk.extra["wakertracker_deep_behaviours"] = len(seen)
     for i, b in enumerate(beh):
         b["id"] = i
     bp = os.path.join(chk.dir, "wt-beh.ndjson")
@@ -384,12 +443,19 @@ def run(prop, tier):
     vlib.cargo_build(["bq"])
     # 1. the implementation-shaped model refines the property layer (exhaustive, small constants)
     mc = {"quick": ["MC_quick.cfg"], "thorough": ["MC_small.cfg", "MC_2p.cfg", "MC_live.cfg"]}[tier]
-    for cfg in mc:
+    for cfg in ([] if vlib.SKIP_MC else mc):
         r = vlib.model_check(SPECD, "BackgroundQueue", cfg, timeout=7200, heap="24g" if tier == "thorough" else "8g")
         chk.add_model("BackgroundQueue/" + cfg, r)
     # 2. recorded executions of the real code against the property layer
     rng = random.Random(chk.seed * 7919 + int(prop[1:]))
     scen = GEN[prop](rng, NSCEN[tier][prop])
+    q = tier == "quick"
+    if prop == "C01":
+        scen += gen_forget_slowflush(rng, 6 if q else 60)
+    if prop == "C05":
+        scen += gen_forget_slowflush(rng, 6 if q else 60) + gen_flush_faults(rng, 4 if q else 40)
+    if prop == "C09":
+        scen += gen_race_rounds(rng, 3 if q else 20, 150 if q else 400) + gen_count_only(rng, 3 if q else 30, 4000 if q else 12000)
     for i, s in enumerate(scen):
         s["id"] = i + 1
         s.setdefault("seed", chk.seed * 100000 + i)
